@@ -72,6 +72,33 @@ def run(tier, seed, only=None):
                 hs = pick[:90]
             for i, h in enumerate(hs):
                 cases.append({"id": "%s-fault-%d" % (drv, i), "h": h["h"], "ev": h["ev"], "viz": h["viz"], "driver": drv})
+            # the same with the faulted run FORCED (--force, force: true, both): after an earlier success, over
+            # unchanged and over edited sources
+            hf, gf = P.gen_histories("Gen_Pipeline_forcedfault_%s" % drv, timeout=3000)
+            hf = [h for h in hf if any(x[0] == "run" and x[4] != "none" for x in h["h"])]
+            total[drv + "-forced"] = len(hf)
+            if tier == "quick":
+                seenk = set()
+                pick = []
+                rnd.shuffle(hf)
+                for h in hf:
+                    runs = [y for y in h["h"] if y[0] == "run"]
+                    pos = [i for i, x in enumerate(runs) if x[4] != "none"][0]
+                    if pos == 0:
+                        continue      # a first run has no record to keep
+                    fr = runs[pos]
+                    edited = any(y[0] != "run" for y in h["h"])
+                    k = (fault_of(h["h"]), pos, bool(fr[2]), bool(fr[3]), edited)
+                    if k not in seenk:
+                        seenk.add(k)
+                        pick.append(h)
+                hf = pick[:120]
+            else:
+                # all histories with an earlier success (a first run has no record to keep), seeded sample of 1 500 per driver
+                hf = [h for h in hf if [i for i, x in enumerate([y for y in h["h"] if y[0] == "run"]) if x[4] != "none"][0] > 0]
+                hf = rnd.sample(hf, min(1500, len(hf)))
+            for i, h in enumerate(hf):
+                cases.append({"id": "%s-forcedfault-%d" % (drv, i), "h": h["h"], "ev": h["ev"], "viz": h["viz"], "driver": drv})
     allev, info = P.replay_all(d, cases)
     mism = P.validate(d, allev)
     by_id = {c["id"]: c for c in cases}
